@@ -62,7 +62,7 @@ Accepts(t, x) ==
 
 DeadExp == [alive |-> FALSE, sh |-> 0, f |-> 0, pt |-> <<>>, wt |-> <<>>, seb |-> <<>>,
             retk |-> 0, retv |-> 0, lo |-> 0, hi |-> 0, n |-> 0, rep |-> FALSE,
-            linked |-> FALSE, qs |-> <<>>]
+            linked |-> FALSE, qs |-> <<>>, flo |-> 0, fhi |-> 0, allq |-> <<>>]
 DeadMon == [alive |-> FALSE, obj |-> 0, died |-> FALSE, n |-> 0, qs |-> <<>>, nq |-> 0]
 
 InitSt ==
@@ -116,6 +116,7 @@ Obs0 == [skip |-> 0, acc |-> 1, ret |-> 0, thr |-> "", thrv |-> 0,
          reps |-> <<>>, repset |-> FALSE,   \* repset: compare reports as a set (order unspecified)
          oks |-> <<>>, trs |-> <<>>, trck |-> TRUE, \* trck: trace records are specified for this op
          sr |-> <<>>, probe |-> <<>>, hd |-> 0,   \* hd: the expectation that handled the call
+         q |-> <<-1, -1>>,                        \* result of an explicit query op
          cargs |-> <<>>, cm |-> 0, cf |-> 0]     \* the call, for the clause-log rules
 Rp0 == [sev |-> 1, kind |-> "", ent |-> 0, fn |-> 0, args |-> <<>>, lo |-> 0, n |-> 0,
         lk |-> 0, lst |-> <<>>, det |-> <<>>, entset |-> {}, cnt |-> 1, cntmax |-> 1]
@@ -218,10 +219,30 @@ ExpectStep(st, a) ==
           ELSE [st |-> [st EXCEPT
                    !.exp[s] = [alive |-> TRUE, sh |-> shp, f |-> tab.fn, pt |-> pt, wt |-> wt, seb |-> seb,
                                retk |-> tab.retk, retv |-> a[17], lo |-> lo, hi |-> hi, n |-> 0,
-                               rep |-> FALSE, linked |-> TRUE, qs |-> qs],
+                               rep |-> FALSE, linked |-> TRUE, qs |-> qs, flo |-> lo, fhi |-> hi, allq |-> qs],
                    !.act[m][tab.fn] = <<s>> \o @,
                    !.pend = [q \in Seqs |-> IF q \in Range(qs) THEN Append(st.pend[q], s) ELSE st.pend[q]]],
                 obs |-> Obs0]
+
+(* ---- creation of an expectation as the separate critical sections the code takes (C12):          *)
+(* the expectation object exists (ecreate), each IN_SEQUENCE registration (ereg), the TIMES / RT_TIMES  *)
+(* clause (elim), and finally hooking it into the mock (ehook) are linearization points of their own;  *)
+(* it takes part in its sequences from ereg on, with the bounds given so far, and is callable from ehook on *)
+ECreateStep(st, a) ==
+  LET r == ExpectStep(st, a) IN
+  IF r.obs.skip = 1 \/ r.obs.thr # "" THEN r
+  ELSE LET s == a[1]  x == r.st.exp[s] IN
+       [st |-> [st EXCEPT !.exp[s] = [x EXCEPT !.lo = 1, !.hi = 1, !.linked = FALSE, !.qs = <<>>]], obs |-> Obs0]
+ERegStep(st, s, idx) ==
+  IF ~(s \in Slots) \/ ~st.exp[s].alive \/ ~(idx \in 1..Len(st.exp[s].allq)) THEN Skip(st)
+  ELSE LET q == st.exp[s].allq[idx] IN
+       [st |-> [st EXCEPT !.exp[s].qs = Append(@, q), !.pend[q] = Append(@, s)], obs |-> Obs0]
+ELimStep(st, s) ==
+  IF ~(s \in Slots) \/ ~st.exp[s].alive THEN Skip(st)
+  ELSE [st |-> [st EXCEPT !.exp[s].lo = st.exp[s].flo, !.exp[s].hi = st.exp[s].fhi], obs |-> Obs0]
+EHookStep(st, s, m) ==
+  IF ~(s \in Slots) \/ ~st.exp[s].alive \/ ~(m \in Mocks) THEN Skip(st)
+  ELSE [st |-> [st EXCEPT !.exp[s].linked = TRUE, !.act[m][st.exp[s].f] = <<s>> \o @], obs |-> Obs0]
 
 MissRep(kind, s, x) == [Rp0 EXCEPT !.kind = kind, !.ent = s, !.lo = x.lo, !.n = x.n]
 
@@ -283,6 +304,16 @@ DestroySeqStep(st, q) ==
 IsCompleted(st, q) == \A i \in 1..Len(st.pend[q]) : HSat(st, st.pend[q][i])
 
 (* ---- deathwatched objects and lifetime monitors ---- *)
+WCreateStep(st, k, o) ==      \* the monitor exists and the object knows it; sequence registration follows (wreg)
+  IF ~(k \in Mons /\ o \in Objs) THEN Skip(st) ELSE
+  IF st.mon[k].alive \/ ~st.obj[o].alive THEN Skip(st)
+  ELSE [st |-> [st EXCEPT !.mon[k] = [alive |-> TRUE, obj |-> o, died |-> FALSE, n |-> 0, qs |-> <<>>, nq |-> 0],
+                          !.obj[o].mons = <<k>> \o @],
+        obs |-> Obs0]
+WRegStep(st, k, q) ==
+  IF ~(k \in Mons /\ q \in Seqs) \/ ~st.mon[k].alive THEN Skip(st)
+  ELSE [st |-> [st EXCEPT !.mon[k].qs = Append(@, q), !.mon[k].nq = @ + 1, !.pend[q] = Append(@, MonH(k))], obs |-> Obs0]
+
 WatchStep(st, a) ==
   LET k == a[1]  o == a[2]  nq == a[3] IN
   IF ~(k \in Mons /\ o \in Objs /\ nq \in 0..2) THEN Skip(st) ELSE
@@ -369,6 +400,27 @@ Step(st, ev) ==
     [] ev.e = "setrep"  -> [st |-> [st EXCEPT !.rep = a[1], !.okrep = IF a[2] = 1 THEN a[1] ELSE @],
                             obs |-> [Obs0 EXCEPT !.probe = IF a[2] = 1 THEN <<st.rep, 100 + st.okrep>> ELSE <<st.rep>>]]
     [] ev.e = "nop"     -> [st |-> st, obs |-> Obs0]
+    [] ev.e = "ecreate" -> ECreateStep(st, a)
+    [] ev.e = "ereg"    -> ERegStep(st, a[1], a[2])
+    [] ev.e = "elim"    -> ELimStep(st, a[1])
+    [] ev.e = "ehook"   -> EHookStep(st, a[1], a[2])
+    [] ev.e = "wcreate" -> WCreateStep(st, a[1], a[2])
+    [] ev.e = "wreg"    -> WRegStep(st, a[1], a[2])
+    [] ev.e = "query"   -> IF a[1] \in Slots /\ st.exp[a[1]].alive
+                           THEN [st |-> st, obs |-> [Obs0 EXCEPT !.q = <<B2I(st.exp[a[1]].n >= st.exp[a[1]].lo), B2I(st.exp[a[1]].n = st.exp[a[1]].hi)>>]]
+                           ELSE Skip(st)
+    [] ev.e = "qsat"    -> IF a[1] \in Slots /\ st.exp[a[1]].alive       \* is_satisfied() alone (its own critical section)
+                           THEN [st |-> st, obs |-> [Obs0 EXCEPT !.q = <<B2I(st.exp[a[1]].n >= st.exp[a[1]].lo), -1>>]]
+                           ELSE Skip(st)
+    [] ev.e = "qsatur"  -> IF a[1] \in Slots /\ st.exp[a[1]].alive       \* is_saturated() alone
+                           THEN [st |-> st, obs |-> [Obs0 EXCEPT !.q = <<-1, B2I(st.exp[a[1]].n = st.exp[a[1]].hi)>>]]
+                           ELSE Skip(st)
+    [] ev.e = "mquery"  -> IF a[1] \in Mons /\ st.mon[a[1]].alive
+                           THEN [st |-> st, obs |-> [Obs0 EXCEPT !.q = <<B2I(st.mon[a[1]].died), B2I(st.mon[a[1]].died)>>]]
+                           ELSE Skip(st)
+    [] ev.e = "iscompleted" -> IF a[1] \in Seqs /\ st.qalive[a[1]]
+                           THEN [st |-> st, obs |-> [Obs0 EXCEPT !.q = <<B2I(IsCompleted(st, a[1])), -1>>]]
+                           ELSE Skip(st)
     [] OTHER            -> Skip(st)
 
 (* ---- projected state, as the public API shows it ---- *)
